@@ -5,7 +5,7 @@
 // into runs of T tests over one private TestRegistry, and trailing chain operations. Runs go through
 // TestRegistry::runAllTests directly or (section command_line_runner_programs) through
 // CommandLineTestRunner::runAllTestsMain, which installs its own SetPointerPlugin and removes it by name.
-// Sections: remove_by_name_enumerated, limit_enumerated, failing_actions_enumerated (all three complete), pointer_programs, chain_programs,
+// Sections: remove_by_name_enumerated, limit_enumerated, failing_actions_enumerated, unrestored_then_new_plugin_enumerated (all four complete), pointer_programs, chain_programs,
 // command_line_runner_programs (random). Build variants: asan (exceptions) and asan-noexc (longjmp only).
 //
 // Oracles (all independent of the implementation):
@@ -23,6 +23,15 @@
 //     still sees the pre action and the mirrored post action (section failing_actions_enumerated: chains of 1..5 x
 //     enabled mask x complaining position x pre/post/both/two failures x test ending; sprinkled over the random sections).
 //     Failures added by plugin actions are counted by the harness and subtracted before the limit / spurious-failure oracles.
+//   * history shape "unrestored redirections, then a NEW SetPointerPlugin object": tests may call UT_PTR_SET while no installed,
+//     enabled SetPointerPlugin is in the chain (disabled / removed / never installed, or the command line runner's own plugin
+//     disabled during a run). Nothing restores those pointers and the entries stay in the process-wide table; such tests are
+//     NOT judged for restoration / limit (the statement presupposes the facility). The generators guarantee that the next test
+//     that runs under an installed, enabled SetPointerPlugin is preceded by the construction of a new SetPointerPlugin object
+//     (chain operation newPluginObject = per-scenario plugin object, or the next CommandLineTestRunner::runAllTestsMain call),
+//     which empties the table; that test and all later ones are judged as usual: every pointer has, after the post actions,
+//     the value it had before the test's first redirection, whatever happened to the location earlier in the process.
+//     (Re-activating the OLD plugin object over unrestored entries replays them - out of scope, never generated.)
 #include "verif.h"
 #include <memory>
 #include <stdexcept>
@@ -151,8 +160,8 @@ struct Script {
     size_t nsets() const { size_t n = 0; for (int p = 0; p < 3; p++) for (const Op& o : ph[p]) n += o.kind == OP_SET; return n; }
 };
 
-enum CK { C_INSTALL, C_REMOVE, C_ENABLE, C_DISABLE, C_ENABLE_BYNAME, C_DISABLE_BYNAME, C_RESET, C_NK };
-static const char* CKNAME[] = { "install", "removeByName", "enable", "disable", "enableByName", "disableByName", "resetPlugins" };
+enum CK { C_INSTALL, C_REMOVE, C_ENABLE, C_DISABLE, C_ENABLE_BYNAME, C_DISABLE_BYNAME, C_RESET, C_NEWOBJ, C_NK };      // C_NEWOBJ: the (uninstalled) plugin object is replaced by a newly constructed one of the same kind and name
+static const char* CKNAME[] = { "install", "removeByName", "enable", "disable", "enableByName", "disableByName", "resetPlugins", "newPluginObject" };
 struct ChainOp { int kind; int plugin; std::string name; };      // plugin == -1: `name` is not the name of any plugin of the universe
 
 enum PT { PT_REC, PT_SPP_REC, PT_SPP_PLAIN, PT_RUNNER_SPP };
@@ -176,7 +185,18 @@ struct Program {
 struct Model {
     std::vector<int> chain;              // head first
     std::vector<char> enabled;
-    explicit Model(size_t n = 0) : enabled(n, 1) {}
+    const Program* prog = nullptr;
+    // redirections made while no installed, enabled SetPointerPlugin was in the chain: nothing restored them, their entries sit in the table
+    bool stale = false;
+    unsigned stale_mask = 0;             // targets with such an entry
+    // ... and a new SetPointerPlugin object has been constructed over them (table emptied); cleared by the first test that runs under an active plugin
+    bool discarded = false;
+    unsigned discarded_mask = 0;
+    explicit Model(const Program* P = nullptr) : enabled(P ? P->U.size() : 0, 1), prog(P) {}
+    void fresh_object(int p) {           // a new plugin object takes the place of plugin p: enabled; a SetPointerPlugin constructor empties the table
+        enabled[p] = 1;
+        if (prog && is_spp(prog->U[p].type)) { if (stale) { discarded = true; discarded_mask |= stale_mask; } stale = false; stale_mask = 0; }
+    }
     int pos(int p) const { for (size_t i = 0; i < chain.size(); i++) if (chain[i] == p) return (int) i; return -1; }
     bool spp_active(const Program& P) const { for (int p : chain) if (is_spp(P.U[p].type) && enabled[p]) return true; return false; }
     void apply(const ChainOp& o) {
@@ -188,6 +208,7 @@ struct Model {
         case C_ENABLE_BYNAME: if (o.plugin >= 0 && pos(o.plugin) >= 0) enabled[o.plugin] = 1; break;
         case C_DISABLE_BYNAME: if (o.plugin >= 0 && pos(o.plugin) >= 0) enabled[o.plugin] = 0; break;
         case C_RESET: chain.clear(); break;
+        case C_NEWOBJ: fresh_object(o.plugin); break;
         }
     }
     std::string str(const Program& P) const {
@@ -258,6 +279,8 @@ struct ExecRec {
     int teardown_entered;
     int plugin_failures;                 // failures added to the TestResult by plugin actions of this execution (not by the test)
     int pre_complaints, post_complaints; // plugin actions that reported a failure
+    bool no_facility;                    // no installed, enabled SetPointerPlugin during this test: its redirections stay unrestored, the test is not judged for restoration / limit
+    unsigned unrestored_mask;            // targets this test redirected (completed) without the facility
 };
 
 class ScriptShell;
@@ -267,6 +290,8 @@ struct Run {
     Model M;
     TestRegistry* reg = nullptr;
     std::vector<TestPlugin*> plug;       // nullptr: not known / not alive (the runner's own SetPointerPlugin outside a run)
+    std::vector<std::unique_ptr<TestPlugin>> own;   // the plugin objects of the universe (slot of the runner's plugin stays empty)
+    void* unrestored_orig[NT];           // value each location had before its first unrestored redirection (what a replay of the stale entries would write)
     size_t failures = 0;                 // failures printed so far (TestOutput::printFailure)
     size_t run_first_exec = 0;
     UtestShell* cur_shell = nullptr;
@@ -302,7 +327,12 @@ static void run_phase(int ph) {
         switch (o.kind) {
         case OP_SET:
             E.attempted++; E.att_target[o.target]++;
-            do_set(o.target, o.value);
+            {
+                void* was = rd(o.target);
+                do_set(o.target, o.value);
+                if (E.no_facility && !((g.M.stale_mask | E.unrestored_mask) >> o.target & 1)) g.unrestored_orig[o.target] = was;
+                if (E.no_facility) E.unrestored_mask |= 1u << o.target;
+            }
             E.completed++; E.done_target[o.target]++;
             break;
         case OP_FAIL_CPP: E.terminators++; E.last_term_kind = o.kind; FAIL("c17 scripted FAIL"); break;
@@ -425,6 +455,13 @@ static bool check_structure(Run& g, const ChainOp& op, const Model& before, int 
     return ok;
 }
 
+static TestPlugin* make_plugin(const PluginSpec& u, int i) {
+    if (u.type == PT_REC) return new RecPlugin(u.name.c_str(), i);
+    if (u.type == PT_SPP_REC) return new RecSPP(u.name.c_str(), i);
+    if (u.type == PT_SPP_PLAIN) return new SetPointerPlugin(u.name.c_str());
+    return nullptr;
+}
+
 static void apply_op(Run& g, const ChainOp& op, bool between_tests) {
     if (g.abandoned) return;
     vf::Ctx& c = *g.c;
@@ -455,6 +492,16 @@ static void apply_op(Run& g, const ChainOp& op, bool between_tests) {
         break;
     }
     case C_RESET: g.reg->resetPlugins(); c.count("chain_op_reset"); break;
+    case C_NEWOBJ:
+        if (oppos >= 0 || P.U[op.plugin].type == PT_RUNNER_SPP) { c.count("new_plugin_object_for_an_installed_plugin_skipped"); return; }    // caller obligation (never generated): an installed object must not be destroyed
+        g.own[op.plugin].reset(make_plugin(P.U[op.plugin], op.plugin));       // the new object is constructed first, then the old one is destroyed
+        g.plug[op.plugin] = g.own[op.plugin].get();
+        c.count("chain_op_new_plugin_object");
+        if (is_spp(P.U[op.plugin].type)) {
+            c.count("new_set_pointer_plugin_objects_constructed");
+            if (g.M.stale) { c.count("new_set_pointer_plugin_objects_constructed_over_unrestored_entries"); c.count("new_set_pointer_plugin_object_over_unrestored_entries_by_chain_operation"); }
+        }
+        break;
     }
     g.M.apply(op);
     if (between_tests) c.count("chain_ops_between_tests_of_one_run"); else c.count("chain_ops_between_runs");
@@ -518,6 +565,7 @@ static void on_test_start(UtestShell* t) {
     if (g.abandoned) { g.script = nullptr; return; }
     for (int i = 0; i < NT; i++) if (st.script.baseline[i] >= 0) { wr(i, POOL[i][st.script.baseline[i]]); c.count("baseline_rewritten_between_tests"); }
     memset(&g.E, 0, sizeof g.E);
+    g.E.no_facility = !g.M.spp_active(*g.P);
     g.script = &st.script;
     g.log_start = g_nlog;
     g.failures_before = g.failures;
@@ -547,8 +595,39 @@ static void on_test_end() {
     if (E.terminators > 1) c.count("tests_with_two_failing_phases");
     if (E.teardown_entered) c.count("teardown_entered");
 
+    // ---------------- scope: the facility is the plugin plus the macro
+    // (a) redirections without an installed, enabled SetPointerPlugin: nothing restores them (expected), their entries stay in the table
+    // (b) an OLD plugin object active over such entries replays them (unchanged code too): never generated, guarded here
+    const Model& MT = g.M_at_test;
+    const bool active = !E.no_facility;
+    const bool unjudged = (!active && E.attempted > 0) || (active && MT.stale);
+    const bool fresh = active && !MT.stale && MT.discarded;       // first judged test after a new SetPointerPlugin object was constructed over unrestored entries
+    const std::string shape = fresh ? ":after-unrestored-redirections-and-a-new-plugin-object" : "";
+    if (fresh) ctx += "; earlier tests redirected pointers while no enabled SetPointerPlugin was installed (never restored), then a new SetPointerPlugin object was constructed";
+    if (!active && E.attempted > 0) {
+        c.count("tests_redirecting_without_an_active_set_pointer_plugin_unjudged");
+        c.count("redirections_left_unrestored", (uint64_t) E.completed);
+        if (E.completed > 0) { g.M.stale = true; g.M.stale_mask |= E.unrestored_mask; }
+        if (E.terminators == 0 && fails > 0) c.count("table_filled_up_by_unrestored_redirections_test_failed");
+        for (int i = 0; i < NT; i++) if (E.done_target[i] > 0 && rd(i) != E.before[i]) c.count("unrestored_locations_left_with_the_redirected_value");
+    }
+    if (active && MT.stale) c.count("tests_under_an_old_plugin_object_over_unrestored_entries_unjudged");      // expected 0
+    if (active) { g.M.discarded = false; g.M.discarded_mask = 0; }
+    if (fresh) {
+        c.count("tests_judged_under_a_new_plugin_object_after_unrestored_redirections");
+        bool same = false; int visible = 0;
+        for (int i = 0; i < NT; i++) if (MT.discarded_mask >> i & 1) {
+            if (E.done_target[i] > 0) same = true;
+            if (E.snapshot_taken && g.unrestored_orig[i] != E.before[i]) visible++;      // a replay of the discarded entry would be seen
+        }
+        if (same) c.count("tests_redirecting_a_location_with_a_discarded_unrestored_entry");
+        c.count("discarded_unrestored_entries_whose_replay_would_be_visible", (uint64_t) visible);
+        if (visible) { c.count("tests_after_a_new_plugin_object_in_which_a_replay_would_be_visible"); c.nontrivial("fresh|" + MT.str(P) + "|" + std::to_string(MT.discarded_mask) + "|" + script_json(S)); }
+    }
+
     // ---------------- pointers restored
     if (!E.snapshot_taken) c.count("setup_not_entered_unjudged");
+    else if (unjudged) c.count("pointer_comparison_skipped_outside_the_facility");
     else {
         bool repeated = false;
         for (int i = 0; i < NT; i++) {
@@ -559,9 +638,10 @@ static void on_test_end() {
             if (after != E.before[i]) {
                 std::string d = ctx + "; target " + std::to_string(i) + " (" + TNAME[i] + ") redirected " + std::to_string(E.done_target[i]) + "x: before " + vname(i, E.before[i]) + " after the post actions " + vname(i, after);
                 if (E.done_target[i] > 0)
-                    c.violation(std::string("not-restored:redirected=") + (E.done_target[i] >= 2 ? "multi" : "once") + ":ending=" + ending, d + "; table " + setsclass(E.attempted));
+                    c.violation(fresh ? "not-restored" + shape        // the ending / repetition classes do not matter for this history shape: one key
+                                      : std::string("not-restored:redirected=") + (E.done_target[i] >= 2 ? "multi" : "once") + ":ending=" + ending, d + "; table " + setsclass(E.attempted));
                 else
-                    c.violation("untouched-target-modified", d);
+                    c.violation("untouched-target-modified" + shape, d);
             }
         }
         if (repeated) { c.nontrivial("ptrtest|" + script_json(S)); c.count("tests_redirecting_a_target_repeatedly"); }
@@ -574,13 +654,13 @@ static void on_test_end() {
     c.count("ut_ptr_sets_completed", (uint64_t) E.completed);
     c.count(E.attempted == 0 ? "tests_sets_0" : E.attempted <= 8 ? "tests_sets_1_8" : E.attempted < LIMIT ? "tests_sets_9_31" : E.attempted == LIMIT ? "tests_sets_exactly_32" : "tests_sets_over_32");
     if (E.completed > LIMIT) c.violation("limit:redirection-beyond-limit-completed", ctx);
-    if (E.attempted > LIMIT) {
+    if (E.attempted > LIMIT && !unjudged) {
         c.count("limit_exceeding_attempts", (uint64_t) (E.attempted - LIMIT));
         if (fails == 0 || !t->hasFailed()) c.violation("limit:exceeding-did-not-fail-test", ctx + "; hasFailed=" + std::to_string(t->hasFailed()));
         else c.count("limit_exceeded_test_failed");
     }
-    if (E.terminators == 0 && E.attempted <= LIMIT && (fails > 0 || t->hasFailed())) c.violation("spurious-failure:within-limit", ctx);
-    if (E.completed == LIMIT && fails == 0) c.count("tests_filling_the_table_exactly_and_passing");
+    if (!unjudged && E.terminators == 0 && E.attempted <= LIMIT && (fails > 0 || t->hasFailed())) c.violation("spurious-failure:within-limit" + shape, ctx);
+    if (!unjudged && E.completed == LIMIT && fails == 0) { c.count("tests_filling_the_table_exactly_and_passing"); if (fresh) c.count("tests_filling_the_table_exactly_after_a_new_plugin_object"); }
 
     // ---------------- plugin order
     std::vector<int> pre, post;
@@ -655,25 +735,27 @@ protected:
 static void run_program(vf::Ctx& c, std::shared_ptr<Program> PP) {
     c.begin([PP] { return prog_json(*PP); });
     const Program& P = *PP;
-    reset_targets();
     g_nlog = 0; g_log_overflow = false;
     UtestShell::setRethrowExceptions(false);
     Run g;
-    g.c = &c; g.P = &P; g.M = Model(P.U.size());
+    g.c = &c; g.P = &P; g.M = Model(&P);
+    for (int i = 0; i < NT; i++) g.unrestored_orig[i] = nullptr;
     g_run = &g;
-    { SetPointerPlugin scrub("scrub"); }      // the constructor clears the process-wide table index: cases stay independent
     HookOutput out;
     TestResult res(out);
+    {
+        // cases stay independent: whatever an earlier case left in the process-wide table is dropped by the constructor of a new
+        // SetPointerPlugin and, independently of that, consumed by a post action (the targets are re-initialised afterwards)
+        SetPointerPlugin scrub("scrub");
+        ScriptShell nobody(0);
+        scrub.postTestAction(nobody, res);
+    }
+    reset_targets();
     TestRegistry reg;
     g.reg = &reg;
-    std::vector<std::unique_ptr<TestPlugin>> own;
     for (size_t i = 0; i < P.U.size(); i++) {
-        TestPlugin* p = nullptr;
-        if (P.U[i].type == PT_REC) p = new RecPlugin(P.U[i].name.c_str(), (int) i);
-        else if (P.U[i].type == PT_SPP_REC) p = new RecSPP(P.U[i].name.c_str(), (int) i);
-        else if (P.U[i].type == PT_SPP_PLAIN) p = new SetPointerPlugin(P.U[i].name.c_str());
-        if (p) own.emplace_back(p);
-        g.plug.push_back(p);
+        g.own.emplace_back(make_plugin(P.U[i], (int) i));
+        g.plug.push_back(g.own.back().get());
     }
     std::vector<std::unique_ptr<ScriptShell>> shells;
     for (int i = 0; i < P.T; i++) { shells.emplace_back(new ScriptShell(i)); g.shells.push_back(shells.back().get()); }
@@ -688,6 +770,8 @@ static void run_program(vf::Ctx& c, std::shared_ptr<Program> PP) {
         else {
             int ri = P.runner_idx();
             ChainOp inst; inst.kind = C_INSTALL; inst.plugin = ri;
+            if (g.M.stale) { c.count("new_set_pointer_plugin_objects_constructed_over_unrestored_entries"); c.count("new_set_pointer_plugin_object_over_unrestored_entries_by_the_command_line_runner"); }
+            g.M.fresh_object(ri);             // a new SetPointerPlugin object, enabled
             g.M.apply(inst);                  // what runAllTestsMain is about to do; verified at the first test of the run
             std::vector<const char*> av;
             for (const std::string& a : rs.args) av.push_back(a.c_str());
@@ -734,7 +818,7 @@ static std::vector<int> allowed_term_kinds() {
 }
 
 // nsets < 0: choose from the distribution
-static Script gen_script(vf::Rng& r, const Program& P, bool spp_active, int nsets, bool small, const Model* M = nullptr) {
+static Script gen_script(vf::Rng& r, const Program& P, bool spp_active, int nsets, bool small, const Model* M = nullptr, bool outside_ok = false) {
     Script s;
     for (int t = 0; t < NT; t++) if (r.chance(50)) s.baseline[t] = (int8_t) r.below(NV);
     if (nsets < 0) {
@@ -742,7 +826,12 @@ static Script gen_script(vf::Rng& r, const Program& P, bool spp_active, int nset
         if (small) nsets = d < 40 ? 0 : r.range(1, 4);
         else if (d < 12) nsets = 0; else if (d < 50) nsets = r.range(1, 8); else if (d < 72) nsets = r.range(9, 31); else if (d < 84) nsets = LIMIT; else nsets = r.range(LIMIT + 1, LIMIT + 4);
     }
-    if (!spp_active) nsets = 0;       // the facility is the plugin plus the macro: tests only redirect while a SetPointerPlugin is installed and enabled
+    // the facility is the plugin plus the macro: tests redirect while a SetPointerPlugin is installed and enabled; in programs with the
+    // "unrestored redirections" history also outside (those tests are not judged, a new SetPointerPlugin object precedes the next judged test)
+    if (!spp_active) {
+        if (!outside_ok) nsets = 0;
+        else { int d = (int) r.below(100); nsets = d < 25 ? 0 : d < 75 ? r.range(1, 4) : d < 92 ? r.range(5, 20) : r.range(28, LIMIT + 2); }
+    }
     static const int W[] = { 0, 1, 3 };
     int w[3] = { W[r.below(3)], W[r.below(3)], W[r.below(3)] };
     if (w[0] + w[1] + w[2] == 0) w[1] = 1;
@@ -832,10 +921,47 @@ static bool gen_op(vf::Rng& r, const Program& P, const Model& M, bool allow_spp,
             else out.name = absent_name(r, P);
             return true;
         }
+        if (d < 98) {                  // a per-scenario plugin object: the uninstalled plugin is replaced by a newly constructed one
+            if (notin.empty()) continue;
+            out.kind = C_NEWOBJ; out.plugin = r.pick(notin); return true;
+        }
         if (!allow_spp) continue;
         out.kind = C_RESET; return true;
     }
     return false;
+}
+
+// Unrestored redirections are in the table (model: M.stale). Before the next test may run under an installed, enabled SetPointerPlugin
+// a NEW SetPointerPlugin object has to be constructed (its constructor empties the table; an old object would replay the entries).
+// force: bring an active new plugin in now; otherwise only repair a chain in which an old object has just become active.
+static void new_object_over_unrestored(vf::Rng& r, const Program& P, Model& M, std::vector<ChainOp>& ops, bool force) {
+    if (!M.stale || !(force || M.spp_active(P))) return;
+    std::vector<int> out, act, in;
+    for (size_t i = 0; i < P.U.size(); i++) {
+        if (!is_spp(P.U[i].type) || P.U[i].type == PT_RUNNER_SPP) continue;
+        if (M.pos((int) i) < 0) out.push_back((int) i); else if (M.enabled[i]) act.push_back((int) i); else in.push_back((int) i);
+    }
+    auto add = [&](int kind, int p) { ChainOp o; o.kind = kind; o.plugin = p; ops.push_back(o); M.apply(o); };
+    if (!act.empty()) {
+        // an old object is active: either a new object of another (uninstalled) SetPointerPlugin is constructed, or this one is taken out, replaced, installed again
+        if (!out.empty() && r.chance(50)) add(C_NEWOBJ, r.pick(out));
+        else { int q = r.pick(act); add(C_REMOVE, q); add(C_NEWOBJ, q); add(C_INSTALL, q); }
+    } else if (!out.empty()) { int q = r.pick(out); add(C_NEWOBJ, q); add(C_INSTALL, q); }
+    else if (!in.empty()) { int q = r.pick(in); add(C_REMOVE, q); add(C_NEWOBJ, q); add(C_INSTALL, q); }
+}
+// takes the facility away for a while: the (an) active SetPointerPlugin is disabled, disabled by name or removed
+static void deactivate_spp(vf::Rng& r, const Program& P, Model& M, std::vector<ChainOp>& ops) {
+    for (int guard = 0; guard < 4 && M.spp_active(P); guard++) {
+        std::vector<int> act;
+        for (int p : M.chain) if (is_spp(P.U[p].type) && M.enabled[p] && P.U[p].type != PT_RUNNER_SPP) act.push_back(p);
+        if (act.empty()) return;
+        ChainOp o; int k = (int) r.below(3); o.kind = k == 0 ? C_DISABLE : k == 1 ? C_DISABLE_BYNAME : C_REMOVE; o.plugin = r.pick(act);
+        ops.push_back(o); M.apply(o);
+    }
+}
+static void after_script(const Program& P, Model& M, const Script& s) {
+    if (!M.spp_active(P)) { if (s.nsets() > 0) M.stale = true; }
+    else { M.discarded = false; M.discarded_mask = 0; }
 }
 
 static void pick_names(vf::Rng& r, Program& P, size_t n, const std::vector<int>& types, const char* exclude = nullptr) {
@@ -857,8 +983,8 @@ static void sec_ptr_programs(vf::Ctx& c) {
     P->T = r.range(1, 4);
     int runs = r.range(1, 3); while (P->T * runs > maxexec) runs--;
     P->runs.resize((size_t) runs);
-    bool window = r.chance(10);            // programs in which the SetPointerPlugin itself is disabled / removed for a while
-    Model M(P->U.size());
+    bool window = r.chance(14);            // programs in which the SetPointerPlugin itself is disabled / removed for a while (tests may redirect meanwhile: unrestored, unjudged)
+    Model M(P.get());
     size_t n = (size_t) (P->T * runs);
     for (size_t k = 0; k < n; k++) {
         Step st;
@@ -871,7 +997,12 @@ static void sec_ptr_programs(vf::Ctx& c) {
             int m = r.range(1, 2);
             for (int i = 0; i < m; i++) { ChainOp o; if (gen_op(r, *P, M, window, o)) { st.ops.push_back(o); M.apply(o); } }
         }
-        st.script = gen_script(r, *P, M.spp_active(*P), -1, false, &M);
+        if (window && k > 0) {
+            if (!M.stale && k + 1 < n && r.chance(25)) deactivate_spp(r, *P, M, st.ops);
+            new_object_over_unrestored(r, *P, M, st.ops, r.chance(45));
+        }
+        st.script = gen_script(r, *P, M.spp_active(*P), -1, false, &M, window);
+        after_script(*P, M, st.script);
         P->steps.push_back(st);
     }
     run_program(c, P);
@@ -885,11 +1016,14 @@ static void sec_chain_programs(vf::Ctx& c) {
     std::vector<int> types(U, PT_REC);
     if (r.chance(40)) { types[r.below(U)] = r.chance(70) ? PT_SPP_REC : PT_SPP_PLAIN; if (U > 1 && r.chance(25)) types[r.below(U)] = PT_SPP_REC; }
     pick_names(r, *P, U, types);
+    bool outside = false;                  // tests may redirect while no SetPointerPlugin is active (unrestored, unjudged); a new plugin object precedes the next judged test
+    for (int t : types) if (t != PT_REC) outside = true;
+    if (outside) outside = r.chance(50);
     int maxexec = c.thorough ? 16 : 10;
     P->T = r.range(1, c.thorough ? 5 : 3);
     int runs = r.range(1, 4); while (P->T * runs > maxexec) runs--;
     P->runs.resize((size_t) runs);
-    Model M(U);
+    Model M(P.get());
     size_t n = (size_t) (P->T * runs);
     for (size_t k = 0; k < n; k++) {
         Step st;
@@ -902,7 +1036,9 @@ static void sec_chain_programs(vf::Ctx& c) {
         }
         int m = k == 0 ? r.range(0, 1) : r.range(0, 3);
         for (int i = 0; i < m; i++) { ChainOp o; if (gen_op(r, *P, M, true, o)) { st.ops.push_back(o); M.apply(o); } }
-        st.script = gen_script(r, *P, M.spp_active(*P), -1, true, &M);
+        if (outside) new_object_over_unrestored(r, *P, M, st.ops, M.stale && r.chance(35));
+        st.script = gen_script(r, *P, M.spp_active(*P), -1, true, &M, outside);
+        after_script(*P, M, st.script);
         P->steps.push_back(st);
     }
     int m = r.range(0, 2);
@@ -921,7 +1057,8 @@ static void sec_runner_programs(vf::Rng& r, vf::Ctx& c) {
     int ri = nrec;
     P->T = r.range(1, 3);
     int runs = r.range(1, 3);
-    Model M(P->U.size());
+    bool outside = r.chance(30);
+    Model M(P.get());
     static const char* EXTRA[] = { "-v", "-c", "-b", "-vv", "-ri" };
     for (int run = 0; run < runs; run++) {
         RunSpec rs;
@@ -941,8 +1078,12 @@ static void sec_runner_programs(vf::Rng& r, vf::Ctx& c) {
                     int m = r.range(0, 2);
                     for (int i = 0; i < m; i++) { ChainOp o; if (gen_op(r, *P, M, false, o)) { st.ops.push_back(o); M.apply(o); } }
                 }
+                M.fresh_object(ri);                                                          // every runAllTestsMain call constructs a new SetPointerPlugin (enabled; the table is emptied)
                 ChainOp inst; inst.kind = C_INSTALL; inst.plugin = ri; M.apply(inst);       // done by the runner
             } else {
+                // the runner's own plugin is switched off while the run is under way (it stays off until the run ends): the remaining tests of this run
+                // may still redirect (unrestored, unjudged); the next run gets a new plugin object
+                if (outside && M.enabled[ri] && r.chance(22)) { ChainOp o; o.kind = r.chance(50) ? C_DISABLE : C_DISABLE_BYNAME; o.plugin = ri; st.ops.push_back(o); M.apply(o); }
                 if (r.chance(35)) {         // a plugin installed while the run is under way ends up in front of the runner's own plugin
                     std::vector<int> notin; for (int p = 0; p < nrec; p++) if (M.pos(p) < 0) notin.push_back(p);
                     if (!notin.empty()) { ChainOp o; o.kind = C_INSTALL; o.plugin = r.pick(notin); st.ops.push_back(o); M.apply(o); }
@@ -952,7 +1093,8 @@ static void sec_runner_programs(vf::Rng& r, vf::Ctx& c) {
                     for (int i = 0; i < m; i++) { ChainOp o; if (gen_op(r, *P, M, false, o)) { st.ops.push_back(o); M.apply(o); } }
                 }
             }
-            st.script = gen_script(r, *P, M.spp_active(*P), -1, false, &M);
+            st.script = gen_script(r, *P, M.spp_active(*P), -1, false, &M, outside);
+            after_script(*P, M, st.script);
             P->steps.push_back(st);
         }
         ChainOp rem; rem.kind = C_REMOVE; rem.plugin = ri; M.apply(rem);                     // done by the runner
@@ -1045,6 +1187,74 @@ static void sec_failing_actions_enum(vf::Ctx& c) {
     run_program(c, P);
 }
 
+// ---------------------------------------------------------------- section: unrestored redirections, then a new SetPointerPlugin object, enumerated
+// private registry: how the facility is absent {installed but disabled, never installed, installed then removed by name} x unrestored redirections
+// {1, 3 on one target, 32 (table full), 34 (overflows inside the window)} x the new object {same plugin replaced and installed, another SetPointerPlugin
+// constructed and installed} x first judged test {same target once, another target + FAIL, no redirection, exactly 32 redirections (must pass)} x
+// location rewritten in between {no, yes} x operations placed {between runs, between tests of one run};
+// command line runner: the runner's plugin disabled {directly, by name} during run 1 x the same unrestored / judged / rewritten dimensions, run 2 = new plugin object.
+// A second judged test (repeated target) follows.
+static const int UR_STALE[] = { 1, 3, 32, 34 };
+static uint64_t unrestored_total() { return 3 * 4 * 2 * 4 * 2 * 2 + 2 * 4 * 4 * 2; }
+static void sec_unrestored_enum(vf::Ctx& c) {
+    uint64_t i = c.idx;
+    const uint64_t NPRIV = 3 * 4 * 2 * 4 * 2 * 2;
+    bool runner = i >= NPRIV;
+    if (runner) i -= NPRIV;
+    int absent = (int) (i % (runner ? 2 : 3)); i /= (runner ? 2 : 3);
+    int nstale = UR_STALE[i % 4]; i /= 4;
+    int newobj = 0; if (!runner) { newobj = (int) (i % 2); i /= 2; }
+    int judged = (int) (i % 4); i /= 4;
+    int rewrite = (int) (i % 2); i /= 2;
+    int between = runner ? 0 : (int) (i % 2);
+    const int T0 = (int) (c.idx % NT), T1 = (T0 + 3) % NT;
+    auto P = std::make_shared<Program>();
+    Script stale, first, second;
+    for (int t = 0; t < NT; t++) stale.baseline[t] = (int8_t) (1 + (t + nstale) % 6);
+    for (int k = 0; k < nstale; k++) {
+        Op o; o.kind = OP_SET; o.target = (uint8_t) (nstale <= 3 ? T0 : (T0 + k) % NT); o.value = (uint8_t) ((k * 3 + 2) % NV);
+        stale.ph[k % 3 == 2 ? 2 : k % 3].push_back(o);
+    }
+    if (rewrite) for (int t = 0; t < NT; t++) first.baseline[t] = (int8_t) ((t + nstale + 3) % NV);       // the program moves on: the locations legitimately get other values
+    if (judged == 0) { Op o; o.kind = OP_SET; o.target = (uint8_t) T0; o.value = 5; first.ph[1].push_back(o); }
+    if (judged == 1) { Op o; o.kind = OP_SET; o.target = (uint8_t) T1; o.value = 0; first.ph[0].push_back(o); o.kind = OP_FAIL_CPP; first.ph[1].push_back(o); }
+    if (judged == 3) for (int k = 0; k < LIMIT; k++) { Op o; o.kind = OP_SET; o.target = (uint8_t) ((T0 + k * 3) % NT); o.value = (uint8_t) ((k + 1) % NV); first.ph[k & 1].push_back(o); }
+    { Op o; o.kind = OP_SET; o.target = (uint8_t) T0; o.value = 2; second.ph[0].push_back(o); o.value = 4; second.ph[1].push_back(o); o.target = (uint8_t) T1; o.value = 6; second.ph[2].push_back(o); second.baseline[T0] = 6; }
+    auto op = [](int kind, int p) { ChainOp o; o.kind = kind; o.plugin = p; return o; };
+    if (!runner) {
+        { PluginSpec s; s.name = "before"; s.type = PT_REC; P->U.push_back(s); }
+        { PluginSpec s; s.name = "SetPointerPlugin"; s.type = (c.idx & 1) ? PT_SPP_PLAIN : PT_SPP_REC; P->U.push_back(s); }
+        { PluginSpec s; s.name = "after"; s.type = PT_REC; P->U.push_back(s); }
+        { PluginSpec s; s.name = "SetPointerPlugin2"; s.type = (c.idx & 2) ? PT_SPP_PLAIN : PT_SPP_REC; P->U.push_back(s); }
+        Step A, B, C;
+        A.ops.push_back(op(C_INSTALL, 0));
+        if (absent != 1) A.ops.push_back(op(C_INSTALL, 1));
+        A.ops.push_back(op(C_INSTALL, 2));
+        if (absent == 0) A.ops.push_back(op((c.idx & 4) ? C_DISABLE : C_DISABLE_BYNAME, 1));
+        if (absent == 2) A.ops.push_back(op(C_REMOVE, 1));
+        A.script = stale;
+        if (newobj == 0) { if (absent == 0) B.ops.push_back(op(C_REMOVE, 1)); B.ops.push_back(op(C_NEWOBJ, 1)); B.ops.push_back(op(C_INSTALL, 1)); }
+        else { B.ops.push_back(op(C_NEWOBJ, 3)); B.ops.push_back(op(C_INSTALL, 3)); }
+        B.script = first; C.script = second;
+        P->steps.push_back(A); P->steps.push_back(B); P->steps.push_back(C);
+        if (between == 0) { P->T = 1; P->runs.resize(3); } else { P->T = 3; P->runs.resize(1); }
+    } else {
+        { PluginSpec s; s.name = "before"; s.type = PT_REC; P->U.push_back(s); }
+        { PluginSpec s; s.name = DEF_PLUGIN_SET_POINTER; s.type = PT_RUNNER_SPP; P->U.push_back(s); }
+        P->runner = true; P->T = 2;
+        Step A0, A1, B0, B1;
+        A0.ops.push_back(op(C_INSTALL, 0));
+        A0.script = second;
+        A1.ops.push_back(op(absent == 0 ? C_DISABLE : C_DISABLE_BYNAME, 1));
+        A1.script = stale;
+        B0.script = first; B1.script = second;
+        P->steps.push_back(A0); P->steps.push_back(A1); P->steps.push_back(B0); P->steps.push_back(B1);
+        RunSpec rs; rs.args.push_back("c17"); rs.args.push_back("-e");
+        P->runs.push_back(rs); P->runs.push_back(rs);
+    }
+    run_program(c, P);
+}
+
 int main(int argc, char** argv) {
     init_pool();
     reset_targets();
@@ -1052,6 +1262,7 @@ int main(int argc, char** argv) {
         { "remove_by_name_enumerated", remove_enum_total(), remove_enum_total(), sec_remove_enum, true },
         { "limit_enumerated", limit_enum_total(), limit_enum_total(), sec_limit_enum, true },
         { "failing_actions_enumerated", failing_actions_total(), failing_actions_total(), sec_failing_actions_enum, true },
+        { "unrestored_then_new_plugin_enumerated", unrestored_total(), unrestored_total(), sec_unrestored_enum, true },
         { "pointer_programs", 15000, 200000, sec_ptr_programs, false },
         { "chain_programs", 15000, 200000, sec_chain_programs, false },
         { "command_line_runner_programs", 6000, 80000, sec_runner, false },
